@@ -11,7 +11,7 @@ import (
 func init() {
 	families["C08"] = famC08
 	rules["C08"] = "random ASTs over all operators (towers mixing or/and/=/!=/</<=/>/>=/+/-/*/div/mod/unary minus/|), paths with all abbreviations, predicates, filter expressions, calls, variables, literals and numerals, with names containing '-', '.', digits and names that spell axes and node types; " +
-		"each rendered with minimal parentheses, with redundant parentheses, with arbitrary legal whitespace and in three canonical forms of Syn/Render.v - steps in full, abbreviated, abbreviated with redundant parentheses everywhere and random runs of space/tab/CR/LF between the tokens - (which the model parser provably reads back to the AST: Syn/LexThm.v): BuildExpr must accept every rendering and the compiled query must evaluate like the AST (the model evaluator on the AST), i.e. identically across renderings; " +
+		"each rendered with minimal parentheses, with redundant parentheses, with arbitrary legal whitespace and in three canonical forms of Syn/Render.v - steps in full, abbreviated, abbreviated with redundant parentheses everywhere and random runs of space/tab/CR/LF between the tokens, and the same three with NO optional white space (a space only where two tokens would run together) - (which the model parser provably reads back to the AST: Syn/LexThm.v, Syn/LexMin.v): BuildExpr must accept every rendering and the compiled query must evaluate like the AST (the model evaluator on the AST), i.e. identically across renderings; " +
 		"the model's own parser must read every rendering back to an AST with the same value (validates the string side of the model); hand-picked token-boundary cases (a-b, a -b, a - b, * * *, a*b, child::child, 4 div 2, //*, /*); " +
 		"non-expressions: character- and token-level mutations of valid renderings: accepted/rejected and the value must agree with the model parser (spec), so nothing is accepted with a part ignored; " +
 		"disagreements explained by the three lexical restrictions of the generated lexer are the open known finding; 200 repeated BuildExpr of one string must evaluate identically; non-trivial: the expression has >= 2 binary operators of different precedence or an abbreviation; distinct by text"
@@ -199,16 +199,17 @@ func famC08(rn *Runner) {
 			}
 			// the canonical renderings of Syn/Render.v (steps in full / abbreviated), which Syn/LexThm.v proves the
 			// model parser reads back to this AST
-			for _, ab := range []string{"0", "1", "2"} {
-				fam := map[string]string{"0": "canonical-rendering", "1": "canonical-abbreviated", "2": "canonical-redundant-parentheses"}[ab]
+			for _, ab := range []string{"0", "1", "2", "3", "4", "5"} {
+				fam := map[string]string{"0": "canonical-rendering", "1": "canonical-abbreviated", "2": "canonical-redundant-parentheses",
+					"3": "canonical-abbreviated-no-optional-whitespace", "4": "canonical-rendering-no-optional-whitespace", "5": "canonical-redundant-parentheses-no-optional-whitespace"}[ab]
 				can := rn.M.Ask("(render " + ab + " " + SxExpr(e) + ")")
 				if len(rn.CoqCases) < 400 && i%9 == 0 {
 					rn.CoqCases = append(rn.CoqCases, "()\t(render "+ab+" "+SxExpr(e)+")\t"+can)
 				}
 				if strings.HasPrefix(can, "S ") {
 					text := decodeStr(can)
-					if ab == "2" {
-						text = respace(r, text) // the white-space theorem: any non-empty run of space/tab/CR/LF after each token
+					if ab == "2" || ab == "5" {
+						text = respace(r, text) // the white-space theorems: any non-empty run of space/tab/CR/LF where there is a space
 					}
 					rc := check(text, fam, e, nontrivial)
 					if rc != r0 && !(strings.HasPrefix(rc, "L") && strings.HasPrefix(r0, "L") && agree(rc, r0)) && !rn.TooMany() {
